@@ -11,6 +11,7 @@ import (
 	"github.com/klev-dev/klevdb/pkg/index"
 	"github.com/klev-dev/klevdb/pkg/message"
 	"github.com/klev-dev/klevdb/pkg/segment"
+	"github.com/klev-dev/klevdb/pkg/verifhook"
 )
 
 type writer struct {
@@ -96,6 +97,7 @@ func (w *writer) Publish(msgs []message.Message) (int64, error) {
 		indexTime = items[i].Timestamp
 	}
 
+	verifhook.Pause("publish.files-written")
 	return w.index.append(items), nil
 }
 
